@@ -178,6 +178,7 @@ def variants(name, c, ttl, cr, hosts):
         D("t", name, T_TXT, c, ttl, cr, b"\x03a=1"),
         D("t", name, T_TXT, c, ttl, cr, b"\x03A=1"),
         D("t", name, T_TXT, c, ttl, cr, b""),
+        D("t", name, T_TXT, c, ttl, cr, b"\x00"),        # one empty string: another rdata than no string at all
         D("s", name, T_SRV, c, ttl, cr, 1, 0, 80, hosts[0]),
         D("s", name, T_SRV, c, ttl, cr, 0, 1, 80, hosts[0]),
         D("s", name, T_SRV, c, ttl, cr, 0, 0, 81, hosts[0]),
@@ -538,6 +539,7 @@ def run(ctx):
             res.violate("C20:cache-duplicate:%s" % kn, "adding the same record twice leaves %d copies in the cache" % len(held), case)
         if same:
             res.nontriv("cache/%s/%s" % (kn, da[1] != db[1]))
+    wire_stream(res, core)
     # questions are never equal to records
     for q in q_obj[:20]:
         for r in core_obj[:40]:
@@ -545,6 +547,76 @@ def run(ctx):
             if q == r or r == q:
                 res.violate("C20:question-equals-record", "a question compares equal to a record", {"q": repr(q), "r": repr(r)})
     return res
+
+
+KIND_TYPES = {"a": (T_A, T_AAAA), "h": (T_HINFO,), "p": (T_PTR, T_CNAME), "t": (T_TXT,), "s": (T_SRV,), "n": (T_NSEC,)}
+
+
+def spec_wire(d, scope):
+    """identity of the record a host builds from what it HEARS: the wire carries owner name, type, class (with the cache-flush
+    bit) and rdata; "IPv6 scope included" = the scope of the interface an AAAA record was heard on is part of its rdata.  An
+    A record has no scope; NSEC rdata is the bitmap, i.e. the *set* of types."""
+    kind, name, type_, c, _ttl, _cr, rd = d
+    if kind == "a":
+        rdi = (rd[0], scope if type_ == T_AAAA else None)
+    elif kind == "p":
+        rdi = (fold(rd[0]),)
+    elif kind == "s":
+        rdi = (rd[0], rd[1], rd[2], fold(rd[3]))
+    elif kind == "n":
+        rdi = (rd[0], tuple(sorted(set(rd[1]))))
+    else:
+        rdi = rd
+    return (kind, fold(name), type_, c % 32768, rdi)
+
+
+def wire_stream(res, core):
+    """records as the library builds them from a datagram: every well-typed core record of two owner names is written into
+    response packets (the library's own DNSOutgoing), each packet is parsed three times -- as heard on a socket without scope
+    and on IPv6 sockets with scope 0 and 3 -- and ALL pairs among the parsed records and the same records built directly
+    (A without scope, AAAA with the receiving scope) are compared with `spec_wire` of what was written.  (Oracle only: the parser is C02's model; what is checked here is that the constructor arguments the parser
+    chooses do not split or merge records.)"""
+    from zeroconf import DNSIncoming, DNSOutgoing, const
+
+    names = list(dict.fromkeys(d[1] for d in core))[:2]     # two spellings of one owner name
+    descs = [d for d in core if d[1] in names and d[2] in KIND_TYPES[d[0]] and d[3] in (IN, IN | UNIQUE)]
+    descs = [d if d[0] != "a" else D("a", d[1], d[2], d[3], d[4], d[5], d[6][0], None) for d in descs]
+    descs = list(dict.fromkeys(descs))
+    parsed = []  # (desc, scope, object)
+    try:
+        out = DNSOutgoing(const._FLAGS_QR_RESPONSE | const._FLAGS_AA, multicast=True)
+        for d in descs:
+            out.add_answer_at_time(build(d), 0)
+        packets = out.packets()
+        for scope in (None, 0, 3):
+            got = []
+            for p in packets:
+                got.extend(DNSIncoming(p, ("fe80::1", 5353), scope, 5000.0).answers())
+            if len(got) != len(descs):
+                res.notes.append("C20 wire stream: %d records written, %d parsed (scope %s): stream skipped" % (len(descs), len(got), scope))
+                return
+            parsed += [(d, scope, o) for d, o in zip(descs, got)]
+            # ... and the same records built directly: an A record without scope, an AAAA record with the receiving scope
+            parsed += [(d, scope, build(d if d[0] != "a" else D("a", d[1], d[2], d[3], d[4], d[5], d[6][0], scope if d[2] == T_AAAA else None)))
+                       for d in descs]
+    except Exception as ex:  # noqa: BLE001 - the codec is C01/C02's business; here it is only a vehicle
+        res.notes.append("C20 wire stream skipped: %r" % ex)
+        return
+    for da, sa, a in parsed:
+        wa = spec_wire(da, sa)
+        for db, sb, b in parsed:
+            res.evaluations += 1
+            eq = a == b
+            spec = wa == spec_wire(db, sb)
+            if eq != spec or (eq and hash(a) != hash(b)):
+                kn = type(a).__name__
+                res.violate("C20:parsed-eq-vs-spec:%s:%s" % (kn, "unequal-hash" if eq == spec else ("split" if spec else "merged")),
+                            "two records parsed from datagrams compare %s (hashes %s) but what was on the wire (name, type, class, rdata; the receiving "
+                            "scope for AAAA only) says %s" % (eq, "equal" if hash(a) == hash(b) else "differ", spec),
+                            {"a": list(map(repr, da)), "heard_on_scope_a": sa, "b": list(map(repr, db)), "heard_on_scope_b": sb,
+                             "parsed_a": repr(a), "parsed_b": repr(b)})
+            if spec:
+                res.nontriv("wire/%s/%s/%s" % (da[0], sa != sb, da[1] != db[1]))
 
 
 def replay(body):
